@@ -25,6 +25,10 @@ import RV.Drv.Isolation
 import RV.Drv.ClosedLoop
 import RV.Drv.Wakeup
 import RV.Drv.TrafficX
+import RV.Drv.Finder
+import RV.Drv.DepCtl
+import RV.Drv.ExecutorX
+import RV.Drv.TRBind
 import RV.Drv.Extra1
 import RV.Drv.Extra2
 namespace RV.Drv
@@ -56,6 +60,10 @@ def lookup : String → Option Handler
   | "closedloop" => some ClosedLoop.handle
   | "wakeup" => some Wakeup.handle
   | "trafficx" => some TrafficX.handle
+  | "finder" => some Finder.handle
+  | "depctl" => some DepCtl.handle
+  | "executorx" => some ExecutorX.handle
+  | "trbind" => some TRBind.handle
   | "extra1" => some Extra1.handle
   | "extra2" => some Extra2.handle
   | _ => none
